@@ -252,7 +252,8 @@ def postings_rows(k0, k1, k2):
 # entries table
 
 @cond('C11.entries', quick=300, thorough=900,
-      bounds='ledger: one symbolic transaction and one directive of each other kind; entries table columns',
+      bounds='ledger: one symbolic transaction and one directive of each other kind (the note and the document carry tags and '
+             'links of their own); entries table columns: the transaction-only columns are NULL for every other kind',
       symbolic='the transaction fields, the date of the other directive', enumerated='kind of the other directive',
       params={**DATE.params('t0_date'), 't0_nopayee': bool, 't0_payee': str, **DATE.params('od'), 'kind': int})
 def entries_table(kind, **kw):
@@ -262,9 +263,9 @@ def entries_table(kind, **kw):
     others = [
         data.Open(m, od, 'Assets:Bank', ['USD'], None), data.Close(m, od, 'Assets:Bank'),
         data.Commodity(m, od, 'USD'), data.Pad(m, od, 'Assets:Bank', 'Equity:Opening'),
-        data.Balance(m, od, 'Assets:Bank', A(D('1'), 'USD'), None, None), data.Note(m, od, 'Assets:Bank', 'c', None, None),
+        data.Balance(m, od, 'Assets:Bank', A(D('1'), 'USD'), None, None), data.Note(m, od, 'Assets:Bank', 'c', frozenset({'nt'}), frozenset({'nl'})),
         data.Event(m, od, 'loc', 'Paris'), data.Query(m, od, 'q', 'SELECT 1'), data.Price(m, od, 'HOOL', A(D('2'), 'USD')),
-        data.Document(m, od, 'Assets:Bank', '/x.pdf', None, None), data.Custom(m, od, 'budget', []),
+        data.Document(m, od, 'Assets:Bank', '/x.pdf', frozenset({'dt'}), frozenset({'dl'})), data.Custom(m, od, 'budget', []),
     ]
     other = pick(others, kind)
     entries = [t0, other]
